@@ -6,6 +6,16 @@ _NOTE = ('Trusted base: the /verif shims for GLib (sim loop calibrated against G
          'the executions listed in the evidence file, nothing more.')
 
 CLAIMED = {
+    'C02': dict(
+        technique='runtime differential monitor: real scapy-CBOR encoder/decoder vs an independent RFC 9171 decoder/encoder/validator with a framing-preserving CBOR walker',
+        text='Exploration: a directed boundary corpus plus ~12k (quick) / ~320k (thorough) seeded random bundles, each run through three differentials (values->real encoder->independent decoder and validator; real decode and byte-identical re-encode; independent encoder->real decoder, typed block data and status reports included) and a byte-for-byte comparison of the two encoders.',
+        note=_NOTE,
+    ),
+    'C08': dict(
+        technique='runtime monitor at the CL and application boundaries of the real BP agent under exhaustive single-bit and sampled burst corruption, judged by an independent bitwise CRC and RFC 9171 decoder',
+        text='Exploration with an exhaustive sub-space: every single-bit flip of 26 base bundles (all CRC-type assignments, block types 1/6/7/10/192/200) and seeded bursts <= CRC width inside protected blocks; a mutant that alters a CRC-protected block and is invalid for the independent decoder must leave no trace (seen-set, application observer, CL output) in a fresh real agent. Output side: CRC fields of every byte string handed to the CL by local sends, forwards, fragmentation and status reports are recomputed on raw block spans.',
+        note=_NOTE + ' Known finding: uint 0/1 -> CBOR false/true bursts pass because decode coerces bool to int (pinned by a unit test).',
+    ),
     'C07': dict(
         technique='runtime monitor: recv_message recorder + receive-buffer probe on the real endpoint, judged by an independent RFC 9174 stream parser; codec differential both ways',
         text='Exploration with exhaustive sub-spaces: every composition (2^13) of 14-octet streams, every single cut of streams up to 300 octets, directed and random cuts of long streams, plus loop-driven runs; each feed step is checked for exactly-the-completed-messages and exact buffer occupancy. Codec half compares fields in both directions for directed boundary values and seeded random messages of all seven types and the contact header.',
